@@ -319,8 +319,8 @@ class Program:
         return None
 
     def mro(self, ci: ClassInfo):
-        """Linearisation for single inheritance chains (fails closed on
-        multiple repo bases)."""
+        """Linearisation: the chain for single inheritance, the C3 merge
+        where a class has several package bases."""
         out = []
         cur = ci
         seen = set()
@@ -332,8 +332,28 @@ class Program:
             repo_bases = [b for b in cur.bases if isinstance(b, ClassInfo)]
             ext_bases = [b for b in cur.bases if not isinstance(b, ClassInfo)]
             if len(repo_bases) > 1:
-                raise AnalysisError('multiple inheritance in ' +
-                                    cur.qualname)
+                # several package bases: C3 merge of the bases'
+                # linearisations, as type.mro() does
+                if len(seen) > 64:
+                    raise AnalysisError('inheritance too deep at ' +
+                                        cur.qualname)
+                lins = [list(self.mro(b)) if isinstance(b, ClassInfo)
+                        else [b] for b in cur.bases]
+                lins.append(list(cur.bases))
+                while any(lins):
+                    lins = [l for l in lins if l]
+                    for l in lins:
+                        h = l[0]
+                        if not any(any(h is x or h == x for x in m[1:])
+                                   for m in lins):
+                            break
+                    else:
+                        raise AnalysisError('inconsistent method resolution '
+                                            'order in ' + cur.qualname)
+                    out.append(h)
+                    lins = [[x for x in l if not (x is h or x == h)]
+                            for l in lins]
+                return out
             if repo_bases:
                 cur = repo_bases[0]
             else:
